@@ -412,6 +412,79 @@ var keyU8 = keyOps[uint8]{"uint8", 256, func(i int) uint8 { return uint8(i) }, f
 	func(i int) int { return i & 255 }, never}
 var keyStr = keyOps[string]{"string", 1 << 30, skey, sidx, ident, never}
 var keyF64 = keyOps[float64]{"float64", 1 << 30, fkey, fidx, fcanon, fnan}
+
+// complex128 keys: real part from the float pool (incl. +-0, NaN, Inf), imaginary part a small function of i;
+// every 5th i >= 10 carries a NaN imaginary part (k != k). +0/-0 real parts are one key.
+func ckey(i int) complex128 {
+	im := float64(i % 3)
+	if i >= 10 && i%5 == 0 {
+		im = fbits(0x7ff8000000000123)
+	}
+	if i%4 == 3 {
+		im = -im // includes -0 for i%3 == 0
+	}
+	return complex(fkey(i), im)
+}
+
+func cnan(i int) bool { return fnan(i) || (i >= 10 && i%5 == 0) }
+
+func cidx(k complex128) int {
+	if k != k {
+		return -2
+	}
+	i := fidx(real(k))
+	if i < 0 {
+		return i
+	}
+	// +0 and -0 share index 0: accept either i=0 or i=1 pattern for the imaginary part
+	if i == 0 { // real part +0 or -0: index 0 is (+0,+0), index 1 is (-0,1)
+		switch imag(k) {
+		case 0:
+			return 0
+		case 1:
+			return 1
+		}
+		return -1
+	}
+	if ckey(i) != k {
+		return -1
+	}
+	return i
+}
+
+func ccanon(i int) int {
+	// ckey(0) = (+0, +0) and ckey(1) = (-0, 1): different keys; only signed zeros inside one component collapse
+	return i
+}
+
+// CK: struct key containing a complex64 (hash and equality go through the struct algorithm)
+type CK struct {
+	c complex64
+	n int32
+}
+
+func mkCK(i int) CK {
+	re := float32(i)
+	if i == 1 {
+		re = float32(fbits(1 << 63)) // -0
+	}
+	if i == 2 {
+		re = float32(fbits(0x7ff8000000000001)) // NaN
+	}
+	return CK{complex(re, float32(i%7)), int32(i)}
+}
+
+var keyC128 = keyOps[complex128]{"c128", 1 << 30, ckey, cidx, ccanon, cnan}
+var keyCK = keyOps[CK]{"ck", 1 << 24, mkCK, func(k CK) int {
+	if k != k {
+		return -2
+	}
+	i := int(k.n)
+	if i < 0 || k != mkCK(i) {
+		return -1
+	}
+	return i
+}, ident, func(i int) bool { return i == 2 }}
 var keyAny = keyOps[interface{}]{"iface", 1 << 30, akey, aidx, acanon, anan}
 var keyArr = keyOps[[2]int32]{"arr", 1 << 30, func(i int) [2]int32 { return [2]int32{int32(i), int32(i>>3) * -7} },
 	func(k [2]int32) int {
